@@ -6,7 +6,9 @@ import (
 	"fmt"
 
 	"github.com/free5gc/ike/security"
+	"github.com/free5gc/ike/security/dh"
 	"github.com/free5gc/ike/security/encr"
+	"github.com/free5gc/ike/security/esn"
 	"github.com/free5gc/ike/security/integ"
 
 	"verif/mc/engine"
@@ -23,6 +25,7 @@ type c08Case struct {
 	Hist  []int `json:"history"` // op indices applied before
 	Op    int   `json:"op"`
 	Depth int   `json:"depth"`
+	Via   int   `json:"via,omitempty"` // how the IKE SA object came to be: 0 GenerateKeyForIKESA on algorithm descriptors; 1 security.NewIKESAKey (proposal + peer public value: the responder path, Diffie-Hellman included)
 }
 
 type c08Op struct {
@@ -30,6 +33,7 @@ type c08Op struct {
 	integIdx int // -1: none
 	nonce    []byte
 	name     string
+	full     bool // the Child SA object carries everything a negotiated proposal carries (DH group, ESN): built through ToProposal / NewChildSAKeyByProposal when the proposal has an integrity transform, else filled in directly
 }
 
 func c08Ops() []c08Op {
@@ -38,7 +42,14 @@ func c08Ops() []c08Op {
 	for _, el := range ref.EncrKeyLens {
 		for ii := -1; ii < 3; ii++ {
 			for ni, n := range nonces {
-				ops = append(ops, c08Op{el, ii, n, fmt.Sprintf("derive(aes%d,integ%d,nonce#%d)", el*8, ii, ni)})
+				ops = append(ops, c08Op{el, ii, n, fmt.Sprintf("derive(aes%d,integ%d,nonce#%d)", el*8, ii, ni), false})
+			}
+		}
+	}
+	for _, el := range ref.EncrKeyLens {
+		for ii := -1; ii < 3; ii++ {
+			for _, ni := range []int{2, 4} {
+				ops = append(ops, c08Op{el, ii, nonces[ni], fmt.Sprintf("derive(aes%d,integ%d,nonce#%d,negotiated with DH group and ESN)", el*8, ii, ni), true})
 			}
 		}
 	}
@@ -47,6 +58,9 @@ func c08Ops() []c08Op {
 
 func c08ArenaIntact() bool { return c08ArenaBuf == nil || bytes.Equal(c08ArenaBuf, c08ArenaOrig) }
 
+// c08Via selects how fresh IKE SA objects are built (see c08Case.Via).
+var c08Via int
+
 func c08Fresh(prfIdx, pat int) (*security.IKESAKey, []byte) {
 	if !c08UseRefill {
 		c08ArenaReset()
@@ -54,6 +68,23 @@ func c08Fresh(prfIdx, pat int) (*security.IKESAKey, []byte) {
 	cs := c07Case{PRF: prfIdx, Integ: 1, Encr: 0, DH: 1}
 	sa := infoSA(cs)
 	nonce := univ.Pat(48, pat)
+	if c08Via == 1 {
+		sa.DhInfo = dh.StrToType("DH_1024_BIT_MODP") // the smaller group: a fresh object is built for every transition
+		prop, err := sa.ToProposal()
+		if err != nil {
+			panic(err)
+		}
+		seam := engine.NewSeam(nil, nil)
+		seam.Stream = uint64(700 + pat)
+		restore := engine.Install(seam)
+		nsa, _, err := security.NewIKESAKey(prop, univ.Pat(128, pat+3), nonce, 7, 9)
+		restore()
+		if err != nil {
+			panic(err)
+		}
+		// SK_d itself is C07's subject; here the Child SA keys are judged relative to the SK_d the object holds
+		return nsa, append([]byte(nil), nsa.SK_d...)
+	}
 	secret := univ.Pat(256, pat+1)
 	if err := sa.GenerateKeyForIKESA(nonce, secret, 7, 9); err != nil {
 		panic(err)
@@ -140,6 +171,22 @@ func c08Apply(sa *security.IKESAKey, op c08Op) (string, error) {
 	if ch.EncrKInfo == nil {
 		return "", fmt.Errorf("registry lacks child encryption algorithm")
 	}
+	if op.full {
+		ch.DhInfo = dh.StrToType("DH_2048_BIT_MODP")
+		var err error
+		if ch.EsnInfo, err = esn.StrToType("ESN_DISABLE"); err != nil {
+			return "", err
+		}
+		if op.integIdx >= 0 {
+			prop, err := ch.ToProposal()
+			if err != nil {
+				return "", err
+			}
+			if ch, err = security.NewChildSAKeyByProposal(prop); err != nil {
+				return "", err
+			}
+		}
+	}
 	if err := ch.GenerateKeyForChildSA(sa, nonce); err != nil {
 		return "", err
 	}
@@ -179,7 +226,8 @@ func init() {
 				return
 			}
 			c08UseRefill = cs.Pat != 1
-			defer func() { c08UseRefill = false }()
+			c08Via = cs.Via
+			defer func() { c08UseRefill = false; c08Via = 0 }()
 			ops := c08Ops()
 			sa, skd := c08Fresh(cs.PRF, cs.Pat)
 			for _, h := range cs.Hist {
@@ -258,10 +306,15 @@ func runC08(c *engine.Ctx) {
 		panic(err)
 	}
 	for prfIdx := 0; prfIdx < 3; prfIdx++ {
-		for pi, pat := range []int{1, 2 + int(c.Seed%5)} {
+		for pi, pat := range []int{1, 2 + int(c.Seed%5), 1} {
 			if !c.Mine() {
 				continue
 			}
+			c08Via = 0
+			if pi == 2 {
+				c08Via = 1 // the IKE SA comes from NewIKESAKey (Diffie-Hellman run inside the library)
+			}
+			via := c08Via
 			c08UseRefill = pi == 1 // caller model: adjacent windows of one arena / one buffer per length refilled in place
 			var skd []byte
 			sops := make([]engine.SSOp, len(ops))
@@ -283,7 +336,7 @@ func runC08(c *engine.Ctx) {
 				func(o interface{}) uint64 { return engine.DumpHash(o) },
 				func(hist []int, oi int, obj interface{}, outcome string) bool {
 					c.Evals++
-					cs := c08Case{PRF: prfIdx, Pat: pat, Hist: hist, Op: oi, Depth: len(hist)}
+					cs := c08Case{PRF: prfIdx, Pat: pat, Hist: hist, Op: oi, Depth: len(hist), Via: via}
 					want := c08Want(prfIdx, skd, ops[oi])
 					if outcome != want || !c08ArenaIntact() {
 						// re-run through the checking path to classify and record
@@ -315,5 +368,7 @@ func runC08(c *engine.Ctx) {
 			}
 		}
 	}
+	c08Via = 0
+	c08UseRefill = false
 	_ = bytes.Equal
 }
